@@ -7,6 +7,11 @@ the XDS demultiplexers, read from the *current* source text of /repo.
   src/cc.h          xds_sub_packet.buffer[..], sub_packet[..][..]
   src/xds_demux.c   store guard `sp->count > K`; does the "unknown class or subclass" branch
                     `goto discard` (which resets the *interrupted* packet) or leave it alone?
+                    the subclass -> buffer index mapping: `if (i >= F) i += T - F;` and, when present,
+                    `else if (i >= L) i = N_ELEMENTS (xd->subpacket[0]);` (subclasses L..F-1 refused
+                    explicitly; F33: without it and with T < L the subclasses T.. and F.. share buffers);
+                    the second extent of `subpacket[][]` is read from the struct declaration, not
+                    assumed to be VBI_XDS_MAX_SUBCLASSES
   src/caption.c     store guard `sp->count > K`; does the parity-error branch of xds_separator
                     clear cc->curr_sp?  does xds_decoder compare the new network id with the
                     current one before it resets the decoder?
@@ -94,6 +99,13 @@ def main():
     d_buf = cexpr(need(re.search(r"\bbuffer\s*\[([^\]]*)\]", m.group(1)), "_vbi_xds_subpacket.buffer").group(1))
     m = need(re.search(r"typedef\s+struct\s*\{([^}]*)\}\s*vbi_xds_packet\s*;", h), "vbi_xds_packet")
     d_pkt = cexpr(need(re.search(r"\bbuffer\s*\[([^\]]*)\]", m.group(1)), "vbi_xds_packet.buffer").group(1))
+    cenv = dict(enum)
+    cenv.update({"VBI_XDS_MAX_CLASSES": d_classes, "VBI_XDS_MAX_SUBCLASSES": d_sub})
+    m = need(re.search(r"struct\s+_vbi_xds_demux\s*\{([^}]*)\}", h), "struct _vbi_xds_demux")
+    m = need(re.search(r"\bsubpacket\s*\[([^\]]*)\]\s*\[([^\]]*)\]", m.group(1)), "_vbi_xds_demux.subpacket[][]")
+    d_classes_arr, d_slots = cexpr(m.group(1), cenv), cexpr(m.group(2), cenv)
+    if d_classes_arr != d_classes:
+        raise SystemExit("gen_xds: first extent of subpacket[][] is %d, VBI_XDS_MAX_CLASSES is %d" % (d_classes_arr, d_classes))
 
     c = rd("cc.h")
     m = need(re.search(r"typedef\s+struct\s*\{([^}]*)\}\s*xds_sub_packet\s*;", c), "xds_sub_packet")
@@ -110,8 +122,23 @@ def main():
     m = need(re.search(r"if\s*\(\s*xds_class\s*>\s*(\w+)", f), "xds_demux.c class check")
     d_maxcls = cexpr(m.group(1), enum)
     m = need(re.search(r"if\s*\(\s*i\s*>=\s*(\w+)\s*\)\s*i\s*\+=\s*([^;]*);", f), "xds_demux.c subclass remap")
-    d_remap_from = cexpr(m.group(1))
-    d_remap_add = cexpr(m.group(1) + " + " + m.group(2))              # value that i = remap_from becomes
+    d_remap_from = cexpr(m.group(1), cenv)
+    d_remap_add = cexpr(m.group(1) + " + " + m.group(2), cenv)        # value that i = remap_from becomes
+    # optional `else if (i >= L) i = N_ELEMENTS (xd->subpacket[0]);` right behind the remap
+    rest = f[m.end():]
+    m2 = re.match(r"\s*else\b", rest)
+    if m2:
+        m3 = re.match(r"\s*else\s+if\s*\(\s*i\s*>=\s*(\w+)\s*\)\s*i\s*=\s*N_ELEMENTS\s*\(\s*xd->subpacket\s*\[\s*0\s*\]\s*\)\s*;", rest)
+        if not m3:
+            raise SystemExit("gen_xds: the subclass remap has an `else` branch of an unknown shape")
+        d_low = cexpr(m3.group(1), cenv)
+        if d_low > d_remap_from:
+            raise SystemExit("gen_xds: `else if (i >= %d)` behind `if (i >= %d)`: shape unknown" % (d_low, d_remap_from))
+        d_gap = True
+    else:
+        d_low, d_gap = d_remap_from, False
+    if not re.search(r"i\s*>=\s*N_ELEMENTS\s*\(\s*xd->subpacket\s*\[\s*0\s*\]\s*\)", f):
+        raise SystemExit("gen_xds: index check `i >= N_ELEMENTS (xd->subpacket[0])` not found")
     rej = block_after(f, need(re.search(r"if\s*\(\s*xds_class\s*>", f), "reject branch").start())
     d_reject_keeps = "goto discard" not in rej
 
@@ -137,8 +164,10 @@ namespace Zvbi.Gen.Xds
 def demuxBufExtent : Nat := %d
 /-- `VBI_XDS_MAX_CLASSES`, first extent of `subpacket[][]` -/
 def demuxClasses : Nat := %d
-/-- `VBI_XDS_MAX_SUBCLASSES`, second extent of `subpacket[][]` -/
+/-- second extent of `subpacket[][]` (`N_ELEMENTS (xd->subpacket[0])`) -/
 def demuxSubclasses : Nat := %d
+/-- `VBI_XDS_MAX_SUBCLASSES` (public macro) -/
+def demuxMaxSubclasses : Nat := %d
 /-- `sizeof (vbi_xds_packet.buffer)` -/
 def demuxPktExtent : Nat := %d
 /-- highest class accepted by `vbi_xds_demux_feed` (`xds_class > VBI_XDS_CLASS_MISC` is refused) -/
@@ -148,6 +177,11 @@ def demuxStoreGuard : Nat := %d
 /-- subclasses `>= demuxRemapFrom` are moved down so that `demuxRemapFrom` lands on `demuxRemapTo` -/
 def demuxRemapFrom : Nat := %d
 def demuxRemapTo : Nat := %d
+/-- subclasses `demuxLowLimit .. demuxRemapFrom - 1` are refused explicitly (`else if (i >= L) i =
+    N_ELEMENTS (...)`); without that branch the value is `demuxRemapFrom` (nothing refused here) -/
+def demuxLowLimit : Nat := %d
+/-- the explicit refusal branch is present -/
+def demuxGapRefused : Bool := %s
 /-- the "unknown class or subclass" branch leaves the interrupted packet alone (no `goto discard`) -/
 def demuxRejectKeepsCurrent : Bool := %s
 
@@ -170,7 +204,8 @@ def sepNuidCompared : Bool := %s
 def svcTypeNeqShadowed : Bool := %s
 
 end Zvbi.Gen.Xds
-""" % (d_buf, d_classes, d_sub, d_pkt, d_maxcls, d_guard, d_remap_from, d_remap_add,
+""" % (d_buf, d_classes, d_slots, d_sub, d_pkt, d_maxcls, d_guard, d_remap_from, d_remap_add,
+       d_low, "true" if d_gap else "false",
        "true" if d_reject_keeps else "false",
        s_buf, s_classes, s_sub, s_guard,
        "true" if s_fields[-2:] == ["chksum", "buffer"] else "false",
